@@ -285,6 +285,49 @@ Proof.
         cbn [items_of]. rewrite E. apply Hother; intros Heq; inversion Heq; subst; apply Hne; reflexivity.
 Qed.
 
+(* ... and ALL of the rest if the reader runs to the end of its iteration *)
+Lemma skipn_nth_none : forall (l : list N) n, nth_error l n = None -> skipn n l = [].
+Proof.
+  induction l as [|a l IH]; intros n H; destruct n; cbn in *; try reflexivity; try discriminate.
+  apply IH, H.
+Qed.
+
+Theorem reader_trace_complete : forall G evs s r rd,
+  inv_pool s -> pget (p_readers s) r = Some rd ->
+  ended_in r evs (snd (prun false G s evs)) = true ->
+  skipn (rd_pos rd) (rd_seq rd) = items_of r evs (snd (prun false G s evs)).
+Proof.
+  intros G evs. induction evs as [|e evs IH]; intros s r rd Hinv Hr Hend.
+  - discriminate Hend.
+  - rewrite prun_cons in *. cbn [snd] in *.
+    assert (Hinv1 : inv_pool (fst (pstep false G s e))) by (apply step_inv, Hinv).
+    assert (Hother : e <> PNext r -> e <> PClose r ->
+              ended_in r evs (snd (prun false G (fst (pstep false G s e)) evs)) = true ->
+              skipn (rd_pos rd) (rd_seq rd) = items_of r evs (snd (prun false G (fst (pstep false G s e)) evs))).
+    { intros Hn Hc He. apply (IH _ r rd Hinv1); [|exact He]. apply other_event_keeps_reader; assumption. }
+    destruct e as [k batch|k batch|k|r' k from|r'|r'].
+    + cbn [items_of ended_in] in *. apply Hother; [discriminate|discriminate|exact Hend].
+    + cbn [items_of ended_in] in *. apply Hother; [discriminate|discriminate|exact Hend].
+    + cbn [items_of ended_in] in *. apply Hother; [discriminate|discriminate|exact Hend].
+    + cbn [items_of ended_in] in *. apply Hother; [discriminate|discriminate|exact Hend].
+    + destruct (N.eqb r r') eqn:E.
+      * apply N.eqb_eq in E. subst r'. rewrite (next_obs G s r rd Hinv Hr) in *.
+        destruct (nth_error (rd_seq rd) (rd_pos rd)) as [x|] eqn:Hx; cbn [items_of ended_in] in *; rewrite N.eqb_refl in *.
+        -- rewrite (skipn_nth_cons _ _ _ Hx). f_equal.
+           apply (IH _ r _ Hinv1 (next_state G s r rd x Hinv Hr Hx) Hend).
+        -- apply skipn_nth_none, Hx.
+      * assert (Hne : r <> r') by (apply N.eqb_neq; exact E).
+        assert (Hn : PNext r' <> PNext r) by (intros Heq; inversion Heq; subst; apply Hne; reflexivity).
+        assert (Hc : PNext r' <> PClose r) by discriminate.
+        destruct (snd (pstep false G s (PNext r'))) as [| | |[x|]|]; cbn [items_of ended_in] in *;
+          try rewrite E in *; apply (Hother Hn Hc Hend).
+    + destruct (N.eqb r r') eqn:E.
+      * cbn [items_of ended_in] in *. rewrite E in *. discriminate Hend.
+      * assert (Hne : r <> r') by (apply N.eqb_neq; exact E).
+        cbn [items_of ended_in] in *. rewrite E in *.
+        apply Hother; [discriminate| intros Heq; inversion Heq; subst; apply Hne; reflexivity | exact Hend].
+Qed.
+
 (* opening a reader: the first change handed out and the record created *)
 Theorem open_obs : forall G s r k from,
   pget (p_readers s) r = None ->
@@ -375,4 +418,21 @@ Proof.
     assert (Hinv : inv_pool (fst (pstep false G s (POpen r k from)))) by (apply step_inv, reachable_inv).
     destruct (reader_trace G post _ r _ Hinv Hb) as [rest Hrest]. cbn [rd_pos rd_seq] in Hrest.
     exists rest. exact Hrest.
+Qed.
+
+Theorem presentation_complete : forall G pre r k from post x,
+  let s := fst (prun false G p_init pre) in
+  let L := iter_ids (run_ops (ops_of G k pre)) in
+  let obs := snd (prun false G (fst (pstep false G s (POpen r k from))) post) in
+  pget (p_readers s) r = None ->
+  nth_error L (find_pos from L) = Some x ->
+  ended_in r post obs = true ->
+  skipn (S (find_pos from L)) L = items_of r post obs.
+Proof.
+  intros G pre r k from post x s L obs Hr Hx Hend.
+  assert (Ht : tget s k = run_ops (ops_of G k pre)) by (apply pool_tree_is_own_history).
+  destruct (open_obs G s r k from Hr) as [_ Hrec]. rewrite Ht in Hrec.
+  destruct (Hrec x Hx) as [b Hb].
+  assert (Hinv : inv_pool (fst (pstep false G s (POpen r k from)))) by (apply step_inv, reachable_inv).
+  exact (reader_trace_complete G post _ r _ Hinv Hb Hend).
 Qed.
